@@ -1,6 +1,8 @@
 /- GENERATED from lean/obligations.json by /verif/check. `lake env lean GoSquare/Audit.lean` prints the
    axioms every registered property theorem depends on; accepted: propext, Classical.choice, Quot.sound. -/
 import GoSquare.Properties.C05
+import GoSquare.Properties.C08
+import GoSquare.Properties.C10
 import GoSquare.Properties.C13
 import GoSquare.Properties.C15
 import GoSquare.Properties.C18
@@ -10,11 +12,26 @@ import GoSquare.Properties.C20
 #print axioms GoSquare.C05.chunks_getElem
 #print axioms GoSquare.C05.commitment_is_merkle_root_of_subtree_roots
 #print axioms GoSquare.Nmt.aligned_inner
+#print axioms GoSquare.C08.roundtrip
+#print axioms GoSquare.C08.write_then_parse
+#print axioms GoSquare.C08.writeAll_eq_layout
+#print axioms GoSquare.sparseWrite_eq_spec
+#print axioms GoSquare.C08.parse_blob
+#print axioms GoSquare.C10.blob_shares_are_as_specified
+#print axioms GoSquare.C10.padding_shares_are_as_specified
+#print axioms GoSquare.C10.reserved_and_tail_padding
+#print axioms GoSquare.C10.infoByte_all
+#print axioms GoSquare.C10.newInfoByte_rejects
+#print axioms GoSquare.C10.reservedBytes_spec
+#print axioms GoSquare.C10.accessors_on_blob_shares
+#print axioms GoSquare.C10.accessors_on_padding
 #print axioms GoSquare.C13.counter_history
 #print axioms GoSquare.C13.add_increment
 #print axioms GoSquare.C13.add_revert
 #print axioms GoSquare.C13.compact_inverse
 #print axioms GoSquare.C13.sparse_inverse
+#print axioms GoSquare.sparseSeq_length
+#print axioms GoSquare.toShares_length
 #print axioms GoSquare.C15.roundUp_least_pow2
 #print axioms GoSquare.C15.roundDown_greatest_pow2
 #print axioms GoSquare.C15.isPowerOfTwo_spec
